@@ -50,3 +50,39 @@ func VerifSessionGauge() float64 {
 	}
 	return sum
 }
+
+// VerifCounter returns the highest id the generator has issued.
+func (g *SequentialIDGenerator) VerifCounter() uint32 {
+	g.mutex.Lock()
+	defer g.mutex.Unlock()
+	return g.currentID
+}
+
+// VerifCounters returns the participant and entity id counters of the session and the type id counter of its store.
+func (s *Session) VerifCounters() (participants, entities, types uint32) {
+	return s.participantIDs.VerifCounter(), s.entityIDs.VerifCounter(), s.entityComponents.ids.VerifCounter()
+}
+
+// VerifTypes returns the registered component types (id -> name).
+func (s *EntityComponentStore) VerifTypes() map[uint32]string {
+	s.mutex.RLock()
+	defer s.mutex.RUnlock()
+	out := make(map[uint32]string, len(s.nameIndex))
+	for k, v := range s.nameIndex {
+		out[k] = v
+	}
+	return out
+}
+
+// VerifSubscriptions returns the subscriptions (type id -> participant ids).
+func (s *EntityComponentStore) VerifSubscriptions() map[uint32][]uint32 {
+	s.subscriptionMutex.RLock()
+	defer s.subscriptionMutex.RUnlock()
+	out := make(map[uint32][]uint32, len(s.subscriptions))
+	for k, v := range s.subscriptions {
+		for p := range v {
+			out[k] = append(out[k], p)
+		}
+	}
+	return out
+}
